@@ -566,8 +566,6 @@ def check_nan_discipline(p, report, f, ff):
             if b is None or b.startswith("self.") or b not in utils:
                 continue
             last = t.slice
-            if isinstance(last, ast.Tuple) and last.elts:
-                last = last.elts[-1]
             idx = names_in(last) & ff.locs
             is_scatter = bool(idx & mderived)
             whole_row = not isinstance(t.slice, ast.Tuple) and not isinstance(t.value, ast.Subscript) \
